@@ -79,3 +79,66 @@ func Harness_C20_linear_args() {
 	_, ok2 := <-c1
 	verifAssert(ok1 && !ok2, "count_one_yields_one_value_then_closed")
 }
+
+// C20 linear_attempt_deadline: the context ends by its deadline (at an arbitrary moment) instead of an
+// explicit cancel: the same "at most one further tick / at most two more values / always closed" clauses.
+func Harness_C20_linear_attempt_deadline() {
+	verifBoundSelectDefaults(2)
+	const count = 2
+	ctx, cancel := context.WithTimeout(context.Background(), time.Second)
+	_ = cancel
+	c := LinearAttempt(ctx, time.Millisecond, count)
+	received, afterExpiry := 0, 0
+	closedSeen := false
+	go func() {
+		for i := 0; i < count+1; i++ {
+			_, ok := <-c
+			if !ok {
+				closedSeen = true
+				return
+			}
+			received++
+		}
+	}()
+	verifFinally(func() {
+		verifAssert(closedSeen, "channel_is_always_closed")
+		verifAssert(received <= count, "never_more_than_count_values")
+		_ = afterExpiry
+		verifReach("quiescent")
+	})
+}
+
+// C20 tick_after_expiry: a context that ends by its deadline at an arbitrary moment, count 3: after the
+// expiry has been observed the receiver obtains at most two more values, and the channel is closed.
+func Harness_C20_deadline_after_expiry() {
+	verifBoundSelectDefaults(1)
+	const count = 3
+	ctx, cancel := context.WithTimeout(context.Background(), time.Second)
+	_ = cancel
+	c := LinearAttempt(ctx, time.Millisecond, count)
+	received, expiredAt, afterExpiry := 0, -1, 0
+	closedSeen := false
+	go func() {
+		for i := 0; i < count+1; i++ {
+			_, ok := <-c
+			if !ok {
+				closedSeen = true
+				return
+			}
+			received++
+			if expiredAt >= 0 {
+				afterExpiry++
+			}
+		}
+	}()
+	go func() {
+		<-ctx.Done()
+		verifAtomic(func() { expiredAt = received })
+	}()
+	verifFinally(func() {
+		verifAssert(closedSeen, "channel_is_always_closed")
+		verifAssert(received <= count, "never_more_than_count_values")
+		verifAssert(afterExpiry <= 2, "at_most_two_more_values_after_the_context_ended")
+		verifReach("quiescent")
+	})
+}
